@@ -21,7 +21,7 @@ Record prec : Type := {
   bh : Z;        (* State().Height() = Map().Manifest().Height() *)
   sid : N;       (* State().Hash() *)
   sprev : N;     (* State().Previous() ; 0 = nil *)
-  tree_ok : bool;(* Proof().Prove(State().Hash()) succeeds *)
+  tree_ok : bool;(* the proof's root is Manifest().StatesTree() and Proof().Prove(State().Hash()) succeeds *)
   pvalid : bool  (* IsValid(networkID) succeeds *)
 }.
 
